@@ -269,7 +269,10 @@ pub fn term(seed: u64, out: &mut Outcome) {
             }
         }
         // C08 "stops delivering data": a datagram handled in a closed state changes no receive accounting
-        if !is_open(&b) && (a.streams.data_recvd != b.streams.data_recvd || a.streams.recv_state != b.streams.recv_state || a.streams.n_recv != b.streams.n_recv || a.dgram_in_len != b.dgram_in_len || a.dgram_in_buffered != b.dgram_in_buffered) {
+        // ("closed" = its own state says so, OR the application had already called close() / been told ConnectionLost: the
+        // harness' own record, so a connection that wrongly stays open internally is still judged)
+        let closed_for_app = o.led[node].local_close_at.is_some() || o.led[node].saw_lost;
+        if (!is_open(&b) || closed_for_app) && (a.streams.data_recvd != b.streams.data_recvd || a.streams.recv_state != b.streams.recv_state || a.streams.n_recv != b.streams.n_recv || a.dgram_in_len != b.dgram_in_len || a.dgram_in_buffered != b.dgram_in_buffered) {
             o.led[node].data_after_close.push(format!("t={now}: a datagram of {} bytes handled in state {} changed the receive accounting: data_recvd {} -> {}, receive streams {} -> {}, datagrams buffered {} -> {}", info.len, b.state, b.streams.data_recvd, a.streams.data_recvd, b.streams.n_recv, a.streams.n_recv, b.dgram_in_len, a.dgram_in_len));
         }
         if is_open(&b) && !is_open(&a) {
@@ -377,8 +380,12 @@ pub fn term(seed: u64, out: &mut Outcome) {
                 let before = sim.snap(node, ch);
                 let mut buf = Vec::new();
                 let t = sim.conn(node, ch).poll_transmit(now, 1, &mut buf);
-                let blocked_by_amp = !before.path.validated && before.path.total_sent >= 3 * before.path.total_recvd;
-                let has_keys = before.spaces.iter().any(|s| s.has_keys);
+                // the only excuse for silence is the anti-amplification limit, and only towards an address the HARNESS has not
+                // seen validated either (crate::addrval): a path wrongly kept unvalidated, or keys dropped too early, excuse nothing
+                // (an open connection always holds the keys of at least one packet number space)
+                let peer_validated = sim.av.is_validated(node, ch, &before.path.remote);
+                let blocked_by_amp = !peer_validated && !before.path.validated && before.path.total_sent >= 3 * before.path.total_recvd;
+                let has_keys = true;
                 match t {
                     Some(t) => {
                         close_tx_ok += 1;
@@ -600,7 +607,8 @@ pub fn term(seed: u64, out: &mut Outcome) {
             sim.fail(k, format!("node {node} closed locally at {:?} yet polled {lost:?}", l.local_close_at));
         }
         // --- at least once, and which reason
-        let ended = sn.state == "drained";
+        // ended = the Drained endpoint event was emitted (the harness saw it), not merely the connection's own state
+        let ended = sn.state == "drained" || sim.nodes[node].conns[&ch].obs.drained_events > 0;
         let cause = if local_first {
             None
         } else if let Some(c) = l.cause.clone() {
